@@ -69,7 +69,14 @@ STD_OPTIONS = [
     ("drawsize", [None, 7, 500]),
     ("update_poolsize", [True, False]),
     ("max_poolsize_scale", [1, 10]),
-    ("reparameterisations", [None, "default", "rescaletobounds", "rescale", "scale", "zscore", "logit", "null", "inversion", "inversion-duplicate", ("angle", "angle"), {"x0": "inversion", "x1": "rescaletobounds"}, {"x0": {"reparameterisation": "rescaletobounds", "update_bounds": False}}, {"rescaletobounds": {"parameters": ["x.*"]}}, ("!", "unknown-name")]),
+    ("reparameterisations", [None, "default", "rescaletobounds", "rescale", "scale", "zscore", "logit", "null", "inversion", "inversion-duplicate", ("angle", "angle"), {"x0": "inversion", "x1": "rescaletobounds"}, {"x0": {"reparameterisation": "rescaletobounds", "update_bounds": False}}, {"rescaletobounds": {"parameters": ["x.*"]}},
+        {"x0": {"reparameterisation": "rescaletobounds", "post_rescaling": "logit"}},
+        {"x0": {"reparameterisation": "rescaletobounds", "post_rescaling": "logit", "update_bounds": False}},
+        {"x0": {"reparameterisation": "logit", "update_bounds": True}},
+        {"x0": {"reparameterisation": "rescaletobounds", "offset": True}},
+        {"x0": {"reparameterisation": "rescaletobounds", "boundary_inversion": True, "detect_edges": True, "inversion_type": "duplicate"}},
+        {"x0": {"reparameterisation": "rescaletobounds", "rescale_bounds": [0.0, 1.0], "prior": "uniform"}},
+        ("!", "unknown-name")]),
     ("fallback_reparameterisation", [None, "zscore", "default"]),
     ("reverse_reparameterisations", [True]),
     ("use_default_reparameterisations", [True, False]),
